@@ -63,7 +63,10 @@ def load():
     import contracts.a_meta as meta
     for prop, layers in getattr(meta, 'PROPERTY_LAYERS', {}).items():
         for layer in layers:
-            for k in getattr(meta, 'LAYER_ROOTS', {}).get(layer, []):
+            roots = getattr(meta, 'LAYER_ROOTS', {}).get(layer, [])
+            if roots == '@C06-non-lemma':
+                roots = [k for k, c in r.contracts.items() if 'C06' in c.get('props', []) and not c.get('lemma') and not c.get('axiom')]
+            for k in roots:
                 if prop not in r.contracts[k]['props']:
                     r.contracts[k]['props'] = list(r.contracts[k]['props']) + [prop]
     _cache = r
